@@ -24,6 +24,7 @@ import (
 	"encoding/json"
 	"fmt"
 	"math/rand"
+	"net"
 	"os"
 	"path/filepath"
 	"runtime"
@@ -38,6 +39,9 @@ import (
 	"github.com/btcsuite/btcwallet/walletdb"
 	"github.com/lightningnetwork/lnd/chainntnfs"
 	"github.com/lightningnetwork/lnd/channeldb"
+	"github.com/lightningnetwork/lnd/chanstate"
+	"github.com/lightningnetwork/lnd/clock"
+	"github.com/lightningnetwork/lnd/graph/db/models"
 	"github.com/lightningnetwork/lnd/fn/v2"
 	"github.com/lightningnetwork/lnd/htlcswitch/hop"
 	"github.com/lightningnetwork/lnd/input"
@@ -72,7 +76,8 @@ type c13Line struct {
 	Cl   int      `json:"cl"`   // channel marked closed in channeldb
 	Bm   int      `json:"bm"`   // commitment marked broadcast in channeldb
 	Nu   int      `json:"nu"`   // nursery request persisted
-	Rd   int      `json:"rd"`   // channel marked resolved in channeldb
+	Rd   int      `json:"rd"`   // channel marked fully closed in channeldb
+	Wp   int      `json:"wp"`   // arbitrator log wiped
 	Ht   int      `json:"ht"`   // chain height
 	Inc  int      `json:"inc"`  // incarnation
 	Lbl  string   `json:"lbl"`  // call-stack label (for humans)
@@ -274,6 +279,15 @@ type c13World struct {
 	raw kvdb.Backend
 	vdb *verifkit.DB
 
+	// the channel database (a second file): the channel is really closed / marked fully closed in it
+	craw    kvdb.Backend
+	cvdb    *verifkit.DB
+	cdb     *channeldb.DB
+	channel *chanstate.OpenChannel
+	setup   bool // writes of the fixture set-up are not part of the run
+	wiped   bool // the arbitrator log has been wiped (ChainArbitrator.ResolveContract)
+	mult    int  // patience factor (a plan that stalled is re-run alone with 3)
+
 	// crash control
 	writes    int // committed writes of the run
 	incWrites int // committed writes of this incarnation
@@ -316,6 +330,7 @@ func (w *c13World) emitLocked(a, wk, h, k, lbl string) {
 		l.N = w.writes
 	}
 	l.Cl, l.Bm, l.Nu, l.Rd = c13b(w.closedInDB), c13b(w.bmark), c13b(w.incubated), c13b(w.resolvedDB)
+	l.Wp = c13b(w.wiped)
 	l.Ht, l.Inc = int(w.height), w.inc
 	if l.Un == nil {
 		l.Un = []c13Res{}
@@ -412,6 +427,7 @@ func (w *c13World) durable(kind, h, k, lbl string, do func() error) error {
 func (w *c13World) dieLocked(v string) {
 	w.crashed = true
 	w.vdb.CrashNow()
+	w.cvdb.CrashNow()
 	w.emitLocked("Crash", "", "", v, "")
 }
 
@@ -425,35 +441,82 @@ func (w *c13World) isCrashed() bool {
 
 type c13DB struct {
 	*verifkit.DB
-	w *c13World
+	w      *c13World
+	chanDB bool
 }
 
 func (d *c13DB) Update(f func(tx walletdb.ReadWriteTx) error, reset func()) error {
-	lbl := c13Label()
-	kind := "Other"
-	first := strings.Split(lbl, "<")[0]
-	switch first {
-	case "CommitState":
-		kind = "CommitState"
-	case "LogContractResolutions":
-		kind = "LogResolutions"
-	case "InsertConfirmedCommitSet":
-		kind = "InsertCommitSet"
-	case "InsertUnresolvedContracts":
-		kind = "Checkpoint"
-		if strings.Contains(lbl, "stateStep") {
-			kind = "InsertUnresolved"
-		}
-	case "checkpointContract":
-		kind = "Checkpoint"
-	case "SwapContract":
-		kind = "Swap"
-	case "ResolveContract":
-		kind = "Resolve"
-	case "WipeHistory":
-		kind = "Wipe"
+	if d.w.setup {
+		return d.DB.Update(f, reset)
 	}
-	return d.w.durable(kind, "", "", lbl, func() error { return d.DB.Update(f, reset) })
+	kind := "Other"
+	var after func()
+	var lbl string
+	if d.chanDB {
+		lbl = c13LabelOf("channeldb.", "chanstate.")
+		switch {
+		case strings.Contains(lbl, "CloseChannel"):
+			kind, after = "MarkClosed", func() { d.w.closedInDB = true }
+		case strings.Contains(lbl, "MarkChanFullyClosed"):
+			kind, after = "MarkResolved", func() { d.w.resolvedDB = true }
+		default:
+			kind = "ChanDB"
+		}
+	} else {
+		lbl = c13Label()
+		switch strings.Split(lbl, "<")[0] {
+		case "CommitState":
+			kind = "CommitState"
+		case "LogContractResolutions":
+			kind = "LogResolutions"
+		case "InsertConfirmedCommitSet":
+			kind = "InsertCommitSet"
+		case "InsertUnresolvedContracts":
+			kind = "Checkpoint"
+			if strings.Contains(lbl, "stateStep") {
+				kind = "InsertUnresolved"
+			}
+		case "checkpointContract":
+			kind = "Checkpoint"
+		case "SwapContract":
+			kind = "Swap"
+		case "ResolveContract":
+			kind = "Resolve"
+		case "WipeHistory":
+			kind, after = "Wipe", func() { d.w.wiped = true }
+		}
+	}
+	return d.w.durable(kind, "", "", lbl, func() error {
+		err := d.DB.Update(f, reset)
+		if err == nil && after != nil {
+			after()
+		}
+		return err
+	})
+}
+
+func c13LabelOf(pkgs ...string) string {
+	pcs := make([]uintptr, 40)
+	n := runtime.Callers(3, pcs)
+	frames := runtime.CallersFrames(pcs[:n])
+	var names []string
+	for {
+		fr, more := frames.Next()
+		q := fr.Function
+		for _, p := range pkgs {
+			if strings.Contains(q, p) && !strings.Contains(q, "c13") {
+				fnn := q[strings.LastIndex(q, ".")+1:]
+				if !strings.HasPrefix(fnn, "func") {
+					names = append(names, fnn)
+				}
+				break
+			}
+		}
+		if len(names) == 3 || !more {
+			break
+		}
+	}
+	return strings.Join(names, "<")
 }
 
 func c13Label() string {
@@ -596,8 +659,23 @@ func (w *c13World) spend(op wire.OutPoint, d *chainntnfs.SpendDetail, kind strin
 // ---- one incarnation of the node -------------------------------------------------
 
 type c13Inc struct {
-	arb       *ChannelArbitrator
+	arb       *ChannelArbitrator // nil: the channel is fully closed, no arbitrator is created
+	chainArb  *ChainArbitrator
+	exited    chan struct{} // closed once every goroutine of the arbitrator has returned
+	dispDone  chan struct{} // closed once the ChainArbitrator's dispatcher goroutine has returned
 	closeSent bool
+}
+
+// c13Stall: the node is alive but does not answer within the bound.
+type c13Stall struct{ where string }
+
+func (e c13Stall) Error() string { return "no progress: " + e.where }
+
+func (w *c13World) patience(d time.Duration) time.Duration {
+	if w.mult > 1 {
+		return d * time.Duration(w.mult)
+	}
+	return d
 }
 
 // c13Boot builds an arbitrator on the durable world the way ChainArbitrator.Start
@@ -611,9 +689,28 @@ func c13Boot(t *testing.T, w *c13World, db kvdb.Backend) (*c13Inc, error) {
 	w.epochRegs = nil
 	w.breachSubs = nil
 	w.incWrites = 0
-	closed := w.closedInDB
 	height := w.height
 	w.mu.Unlock()
+
+	// what ChainArbitrator.Start finds in the channel database
+	chanPoint := w.channel.FundingOutpoint
+	pending, err := w.cdb.ChannelStateDB().FetchClosedChannels(true)
+	if err != nil {
+		return nil, err
+	}
+	closed := false
+	var closeSum *channeldb.ChannelCloseSummary
+	for _, c := range pending {
+		if c.ChanPoint == chanPoint {
+			closed, closeSum = true, c
+		}
+	}
+	if !closed {
+		if sum, err := w.cdb.ChannelStateDB().FetchClosedChannel(&chanPoint); err == nil && !sum.IsPending {
+			// fully closed: neither loadOpenChannels nor loadPendingCloseChannels sees it
+			return &c13Inc{}, nil
+		}
+	}
 
 	placeholder := &mockArbitratorLog{state: StateDefault, newStates: make(chan ArbitratorState, 100)}
 	ctx, err := createTestChannelArbitrator(t, placeholder)
@@ -621,6 +718,8 @@ func c13Boot(t *testing.T, w *c13World, db kvdb.Backend) (*c13Inc, error) {
 		return nil, err
 	}
 	cfg := ctx.chanArb.cfg
+	cfg.ChanPoint = chanPoint
+	cfg.ShortChanID = w.channel.ShortChanID()
 	cfg.PreimageDB = &c13Beacon{w}
 	cfg.Registry = &mockRegistry{}
 	cfg.Notifier = &c13Notifier{w}
@@ -668,19 +767,38 @@ func c13Boot(t *testing.T, w *c13World, db kvdb.Backend) (*c13Inc, error) {
 			return nil
 		})
 	}
-	cfg.MarkChannelClosed = func(*channeldb.ChannelCloseSummary, ...channeldb.ChannelStatus) error {
-		return w.durable("MarkClosed", "", "", "MarkChannelClosed", func() error {
-			w.closedInDB = true
-			return nil
-		})
+	cfg.MarkChannelClosed = func(_ *channeldb.ChannelCloseSummary, st ...channeldb.ChannelStatus) error {
+		// the real channeldb write (one transaction of the channel database)
+		ch := w.channel
+		sum := &channeldb.ChannelCloseSummary{
+			ChanPoint: chanPoint, ChainHash: ch.ChainHash, ClosingTXID: s.closeTx.TxHash(),
+			RemotePub: ch.IdentityPub, Capacity: ch.Capacity, IsPending: true,
+			CloseHeight: c13CloseHeight, ShortChanID: ch.ShortChanID(),
+			RemoteCurrentRevocation: ch.RemoteCurrentRevocation,
+			RemoteNextRevocation:    ch.RemoteNextRevocation,
+			LocalChanConfig:         ch.LocalChanCfg,
+		}
+		switch s.kind {
+		case "local":
+			sum.CloseType = channeldb.LocalForceClose
+		case "remote":
+			sum.CloseType = channeldb.RemoteForceClose
+		case "breach":
+			sum.CloseType = channeldb.BreachClose
+		case "coop":
+			sum.CloseType = channeldb.CooperativeClose
+		}
+		return ch.CloseChannel(sum, st...)
 	}
-	cfg.NotifyChannelResolved = func() {
-		// ChainArbitrator.ResolveContract: channeldb.MarkChanFullyClosed
-		_ = w.durable("MarkResolved", "", "", "NotifyChannelResolved", func() error {
-			w.resolvedDB = true
-			return nil
-		})
-	}
+	// the real ChainArbitrator takes the notification and runs the real ResolveContract
+	// (MarkChanFullyClosed in the channel db, stop the arbitrator, WipeHistory)
+	chainArb := NewChainArbitrator(ChainArbitratorConfig{
+		ChainIO: cfg.ChainIO, Notifier: cfg.Notifier, PublishTx: cfg.PublishTx,
+		NotifyClosedChannel: func(wire.OutPoint) {},
+		Clock:               clock.NewDefaultClock(), Budget: *DefaultBudgetConfig(),
+		QueryIncomingCircuit: func(models.CircuitKey) *models.CircuitKey { return nil },
+	}, w.cdb)
+	cfg.NotifyChannelResolved = func() { chainArb.notifyChannelResolved(chanPoint) }
 	cfg.SubscribeBreachComplete = func(_ *wire.OutPoint, c chan struct{}) (bool, error) {
 		w.mu.Lock()
 		defer w.mu.Unlock()
@@ -693,18 +811,9 @@ func c13Boot(t *testing.T, w *c13World, db kvdb.Backend) (*c13Inc, error) {
 	htlcSets := make(map[HtlcSetKey]htlcSet)
 	if closed {
 		cfg.IsPendingClose = true
-		cfg.ClosingHeight = c13CloseHeight
+		cfg.ClosingHeight = closeSum.CloseHeight
+		cfg.CloseType = closeSum.CloseType
 		cfg.ChainEvents = &ChainEventSubscription{}
-		switch s.kind {
-		case "local":
-			cfg.CloseType = channeldb.LocalForceClose
-		case "remote":
-			cfg.CloseType = channeldb.RemoteForceClose
-		case "breach":
-			cfg.CloseType = channeldb.BreachClose
-		case "coop":
-			cfg.CloseType = channeldb.CooperativeClose
-		}
 	} else {
 		htlcSets[LocalHtlcSet] = newHtlcSet(s.htlcs)
 		htlcSets[RemoteHtlcSet] = newHtlcSet(s.htlcs)
@@ -719,10 +828,14 @@ func c13Boot(t *testing.T, w *c13World, db kvdb.Backend) (*c13Inc, error) {
 	w.decodeCf = cfg
 	w.mu.Unlock()
 
+	chainArb.activeChannels[chanPoint] = arb
+	dispDone := make(chan struct{})
+	go func() { chainArb.resolveContracts(); close(dispDone) }()
 	if err := arb.Start(nil, newBeatFromHeight(height)); err != nil {
 		return nil, fmt.Errorf("start: %w", err)
 	}
-	inc := &c13Inc{arb: arb}
+	inc := &c13Inc{arb: arb, chainArb: chainArb, exited: make(chan struct{}), dispDone: dispDone}
+	go func() { arb.wg.Wait(); close(inc.exited) }()
 	if !closed {
 		// the link attaches: a synchronisation point with the attendant
 		arb.UpdateContractSignals(&ContractSignals{ShortChanID: lnwire.ShortChannelID{}})
@@ -730,14 +843,27 @@ func c13Boot(t *testing.T, w *c13World, db kvdb.Backend) (*c13Inc, error) {
 	return inc, nil
 }
 
-func (inc *c13Inc) shutdown() error {
+func (inc *c13Inc) shutdown(w *c13World) error {
+	if inc.arb == nil {
+		return nil
+	}
 	done := make(chan error, 1)
-	go func() { done <- inc.arb.Stop() }()
+	go func() {
+		err := inc.arb.Stop()
+		// no goroutine of this incarnation may outlive it (it would write into the next one)
+		select {
+		case <-inc.chainArb.quit:
+		default:
+			close(inc.chainArb.quit)
+		}
+		<-inc.dispDone
+		done <- err
+	}()
 	select {
 	case err := <-done:
 		return err
-	case <-time.After(40 * time.Second):
-		return fmt.Errorf("arbitrator Stop() hangs")
+	case <-time.After(w.patience(20 * time.Second)):
+		return c13Stall{"Stop"}
 	}
 }
 
@@ -762,6 +888,9 @@ func (w *c13World) quiesce(d time.Duration) {
 func c13Drive(w *c13World, inc *c13Inc, first bool, rng *rand.Rand) error {
 	s := w.s
 	arb := inc.arb
+	if arb == nil {
+		return nil
+	}
 	q := func() { w.quiesce(time.Duration(8+rng.Intn(8)) * time.Millisecond) }
 
 	if first && s.userClose {
@@ -770,18 +899,18 @@ func c13Drive(w *c13World, inc *c13Inc, first bool, rng *rand.Rand) error {
 			respChan := make(chan *wire.MsgTx, 1)
 			select {
 			case arb.forceCloseReqs <- &forceCloseReq{errResp: errChan, closeTx: respChan}:
-			case <-time.After(30 * time.Second):
-				return fmt.Errorf("force close request not taken")
+			case <-time.After(w.patience(15 * time.Second)):
+				return c13Stall{"ForceCloseRequest"}
 			}
 			select {
 			case <-respChan:
-			case <-time.After(30 * time.Second):
-				return fmt.Errorf("no force close response")
+			case <-time.After(w.patience(15 * time.Second)):
+				return c13Stall{"ForceCloseResponse"}
 			}
 			select {
 			case <-errChan:
-			case <-time.After(30 * time.Second):
-				return fmt.Errorf("no force close error response")
+			case <-time.After(w.patience(15 * time.Second)):
+				return c13Stall{"ForceCloseResponse"}
 			}
 		}
 	}
@@ -790,7 +919,7 @@ func c13Drive(w *c13World, inc *c13Inc, first bool, rng *rand.Rand) error {
 	for round := 0; round < 400; round++ {
 		q()
 		w.mu.Lock()
-		dead, resolved := w.crashed, w.resolvedDB
+		dead, resolved := w.crashed, w.resolvedDB && w.wiped
 		closed := w.closedInDB
 		height := w.height
 		if !w.confirmed && height >= c13CloseHeight && (w.published || s.kind != "local") {
@@ -831,23 +960,33 @@ func c13Drive(w *c13World, inc *c13Inc, first bool, rng *rand.Rand) error {
 			if !ok {
 				return nil
 			}
-			beat := newBeatFromHeight(height)
-			done := make(chan struct{})
-			go func() { arb.ProcessBlock(beat); close(done) }()
-			// a dead node never answers (its attendant may have returned): stop waiting as soon
-			// as the crash has happened
-			t0 := time.Now()
-		wait:
-			for {
+			// a node whose attendant has returned (fully resolved, or a close handler gave up) takes
+			// no more beats; a dead node never answers
+			exited := func() bool {
 				select {
-				case <-done:
-					break wait
-				case <-time.After(10 * time.Millisecond):
-					if w.isCrashed() {
+				case <-inc.exited:
+					return true
+				default:
+					return false
+				}
+			}
+			if !exited() {
+				beat := newBeatFromHeight(height)
+				done := make(chan struct{})
+				go func() { arb.ProcessBlock(beat); close(done) }()
+				t0 := time.Now()
+			wait:
+				for {
+					select {
+					case <-done:
 						break wait
-					}
-					if time.Since(t0) > 40*time.Second {
-						return fmt.Errorf("ProcessBlock(%d) did not return", height)
+					case <-time.After(5 * time.Millisecond):
+						if w.isCrashed() || exited() {
+							break wait
+						}
+						if time.Since(t0) > w.patience(15*time.Second) {
+							return c13Stall{fmt.Sprintf("ProcessBlock(%d)", height)}
+						}
 					}
 				}
 			}
@@ -975,29 +1114,54 @@ func c13SendClose(w *c13World, arb *ChannelArbitrator) {
 	}
 }
 
-// c13Run executes one plan and returns the recorded lines and the number of
-// writes of the first incarnation that ended without a crash.
-func c13Run(t *testing.T, plan c13Plan, rng *rand.Rand) ([]c13Line, int, error) {
+// c13Run executes one plan and returns the recorded lines, the number of
+// writes of the last incarnation and whether the live node stopped answering.
+func c13Run(t *testing.T, plan c13Plan, rng *rand.Rand, mult int) ([]c13Line, int, bool, error) {
 	s := c13NewScenario(plan.Sc)
 	w := &c13World{s: s, spent: map[wire.OutPoint]*chainntnfs.SpendDetail{}, height: 1,
-		preimages: map[lntypes.Hash]lntypes.Preimage{}}
+		preimages: map[lntypes.Hash]lntypes.Preimage{}, mult: mult}
 	for h, p := range s.preimageOf {
 		w.preimages[h] = p
 	}
 	dir, err := os.MkdirTemp("", "c13db")
 	if err != nil {
-		return nil, 0, err
+		return nil, 0, false, err
 	}
 	defer os.RemoveAll(dir)
 	raw, err := kvdb.Create(kvdb.BoltBackendName, filepath.Join(dir, "testdb"), true,
 		kvdb.DefaultDBTimeout, false)
 	if err != nil {
-		return nil, 0, err
+		return nil, 0, false, err
 	}
 	defer raw.Close()
 	w.raw = raw
 	w.vdb = verifkit.Wrap(raw)
 	db := &c13DB{DB: w.vdb, w: w}
+
+	// the channel database with a real channel in it (fixture set-up, not part of the run)
+	craw, err := kvdb.Create(kvdb.BoltBackendName, filepath.Join(dir, "chandb"), true,
+		kvdb.DefaultDBTimeout, false)
+	if err != nil {
+		return nil, 0, false, err
+	}
+	defer craw.Close()
+	w.craw, w.cvdb = craw, verifkit.Wrap(craw)
+	w.setup = true
+	w.cdb, err = channeldb.CreateWithBackend(&c13DB{DB: w.cvdb, w: w, chanDB: true})
+	if err != nil {
+		return nil, 0, false, fmt.Errorf("channeldb: %w", err)
+	}
+	lc, _, err := lnwallet.CreateTestChannels(t, channeldb.SingleFunderTweaklessBit)
+	if err != nil {
+		return nil, 0, false, fmt.Errorf("fixture channel: %w", err)
+	}
+	w.channel = lc.State()
+	w.channel.Db = w.cdb.ChannelStateDB()
+	addr := &net.TCPAddr{IP: net.ParseIP("127.0.0.1"), Port: 18556}
+	if err := w.channel.SyncPending(addr, 101); err != nil {
+		return nil, 0, false, fmt.Errorf("sync channel: %w", err)
+	}
+	w.setup = false
 
 	w.proj = c13Line{St: "Default", Un: []c13Res{}}
 	w.mu.Lock()
@@ -1005,11 +1169,13 @@ func c13Run(t *testing.T, plan c13Plan, rng *rand.Rand) ([]c13Line, int, error) 
 	w.lines[len(w.lines)-1].Plan = plan.String()
 	w.mu.Unlock()
 
+	stalled := false
 	crashes := plan.Crashes
 	for i := 0; ; i++ {
 		w.mu.Lock()
 		w.crashed = false
 		w.vdb.Revive()
+		w.cvdb.Revive()
 		w.crash = nil
 		if i < len(crashes) {
 			c := crashes[i]
@@ -1028,20 +1194,28 @@ func c13Run(t *testing.T, plan c13Plan, rng *rand.Rand) ([]c13Line, int, error) 
 
 		inc, err := c13Boot(t, w, db)
 		if err != nil {
-			return w.lines, 0, fmt.Errorf("boot %d: %w", i, err)
+			return w.lines, 0, false, fmt.Errorf("boot %d: %w", i, err)
 		}
 		derr := c13Drive(w, inc, i == 0, rng)
-		if err := inc.shutdown(); err != nil {
-			return w.lines, 0, err
+		serr := inc.shutdown(w)
+		if derr == nil {
+			derr = serr
+		}
+		if st, ok := derr.(c13Stall); ok && !w.isCrashed() {
+			// the live node does not answer: recorded, the run ends here
+			stalled = true
+			w.mu.Lock()
+			w.emitLocked("Stall", "", "", st.where, "")
+			w.mu.Unlock()
+			break
 		}
 		if derr != nil {
-			return w.lines, 0, derr
+			if _, ok := derr.(c13Stall); !ok {
+				return w.lines, 0, false, derr
+			}
 		}
 		if !w.isCrashed() {
 			break
-		}
-		if i > len(crashes)+1 {
-			return w.lines, 0, fmt.Errorf("unexpected crash")
 		}
 	}
 	w.mu.Lock()
@@ -1051,7 +1225,7 @@ func c13Run(t *testing.T, plan c13Plan, rng *rand.Rand) ([]c13Line, int, error) 
 	n := w.incWrites
 	lines := w.lines
 	w.mu.Unlock()
-	return lines, n, nil
+	return lines, n, stalled, nil
 }
 
 // TestVerifC13Arbitrator: reference run per scenario, then every single crash
@@ -1083,9 +1257,10 @@ func TestVerifC13Arbitrator(t *testing.T) {
 		}
 	}
 	type result struct {
-		lines []c13Line
-		n     int
-		err   error
+		lines   []c13Line
+		n       int
+		stalled bool
+		err     error
 	}
 	base := 0
 	runAll := func(plans []c13Plan) []result {
@@ -1102,9 +1277,9 @@ func TestVerifC13Arbitrator(t *testing.T) {
 				for i := range next {
 					r := rand.New(rand.NewSource(seed*1000003 + int64(off+i)))
 					progress("start " + plans[i].String())
-					lines, n, err := c13Run(t, plans[i], r)
+					lines, n, st, err := c13Run(t, plans[i], r, 1)
 					progress("done  " + plans[i].String())
-					res[i] = result{lines, n, err}
+					res[i] = result{lines, n, st, err}
 				}
 			}()
 		}
@@ -1113,6 +1288,17 @@ func TestVerifC13Arbitrator(t *testing.T) {
 		}
 		close(next)
 		wg.Wait()
+		// a run in which the live node stopped answering is repeated alone with three times the
+		// patience: only what stalls again is recorded as a stall
+		for i := range res {
+			if res[i].err == nil && res[i].stalled {
+				r := rand.New(rand.NewSource(seed*1000003 + int64(off+i)))
+				progress("again " + plans[i].String())
+				lines, n, st, err := c13Run(t, plans[i], r, 3)
+				t.Logf("STALL plan=%s repeated alone with 3x patience: stalled again=%v", plans[i], st)
+				res[i] = result{lines, n, st, err}
+			}
+		}
 		return res
 	}
 	nruns := 0
@@ -1152,6 +1338,12 @@ func TestVerifC13Arbitrator(t *testing.T) {
 		}
 	}
 	refRes := runAll(refs)
+	for i, r := range refRes {
+		if r.err == nil && r.stalled {
+			// without a complete reference run nothing can be said about the scenario
+			refRes[i].err = fmt.Errorf("the crash-free reference run does not complete")
+		}
+	}
 	emit(refs, refRes)
 
 	var plans []c13Plan
